@@ -147,6 +147,8 @@ def main():
         return ("Some", [l[1], r[1]])
 
     extern = [
+        (r"^ExecutionError::function_error::<.*>$", lambda e, m, a: ("enum", "ExecutionError::FunctionError", [a[0], a[1]])),
+        (r"^<std::string::String as Deref>::deref$", lambda e, m, a: ("str", deref(e, a[0])[1].encode())),
         (r"^Vec::<(?:Key|Value|IdedEntryExpr|Expression)>::len$", m_vec_len),
         (r"^Vec::<(?:Key|Value)>::(?:with_capacity|new)$", lambda e, m, a: ("vecv", [])),
         (r"^Vec::<(?:Key|Value)>::push$", m_vec_push),
@@ -234,6 +236,21 @@ def main():
                 want = results[("e", bad)] if bad is not None else ok(("enum", "Value::List", [("arc", ("vecv", [("abs_val", "e%d" % j) for j in range(n)]))]))
                 expr = [1, ("enum", "Expr::List", [[("vec", [("operand", ("e", j)) for j in range(n)])]])]
                 run({"node": "list", "elements": n, "failing": bad}, expr, results, want_events, want)
+        # ---- message literals are not supported: an execution error, never a panic
+        stats["scenarios"] += 1
+        eng = engine()
+        eng.steps = 0
+        cur.clear()
+        cur.update({"events": [], "results": {}})
+        try:
+            res = eng.call_fn(fn, [Ref({0: [3, ("enum", "Expr::Struct", [[("string", "T"), ("vec", [])]])]}, 0, ()), Opaque("ctx")])
+            stats["paths"] += 1
+            if isinstance(res, tuple) and res[1] == "Result::Err":
+                stats["proved"] += 1
+            else:
+                failures.append({"node": "struct", "problems": ["a message literal is not an execution error: %r" % (res,)]})
+        except PanicFound as p:
+            failures.append({"node": "struct", "problems": ["panic reachable: %s" % p.msg]})
         # ---- map literals
         for n in range(0, 4):
             for kinds in itertools.product(["int", "uint", "bool", "string", "null"], repeat=n):
